@@ -6,7 +6,8 @@ order of increasing size (segments, then number of edges), so that the first
 counter-example found is a smallest one.
 
 GFA1 / GFA2-twin spec:  (kind, n, segvar, links, extras)
-  kind    'g1' (GFA1) | 'g2' (GFA2 twin of the same graph)
+  kind    'g1' (GFA1) | 'g2' (GFA2 twin of the same graph) | 'g2x' / 'g2y'
+          (twin with the sides of all / every other E line exchanged)
   n       number of segments, named A, B, C, D
   segvar  'seq'   distinct 3-letter sequences, no LN
           'star'  `*` + LN:i:3 (GFA2: `*` with slen 3)
@@ -132,7 +133,10 @@ def _iv(x, k):
   return (str(SLEN - k) + ("$" if k == 0 else "")), str(SLEN) + "$"
 
 
-def edge_line(l):
+def edge_line(l, swapped=False):
+  """swapped: the same adjacency with the two sides of the E line exchanged
+  (the side whose PREFIX takes part comes first: an E line never produced by
+  a conversion from GFA1, but just as valid)."""
   a, b, form, o = l
   if form == 1:
     a, b = b, a
@@ -140,6 +144,8 @@ def edge_line(l):
   k = 0 if o == "*" else int(o[:-1])
   b1, e1 = _iv(end_of(a)[1], k)
   b2, e2 = _iv(end_of(b)[1], k)
+  if swapped:
+    return "\t".join(["E", "*", t + to, f + fo, b2, e2, b1, e1, o])
   return "\t".join(["E", "*", f + fo, t + to, b1, e1, b2, e2, o])
 
 
@@ -155,8 +161,12 @@ def text(sp):
       out.append("\t".join(["S", name, seq] + (["LN:i:3"] if ln else [])))
     else:
       out.append("\t".join(["S", name, str(SLEN), seq]))
-  for l in links:
-    out.append(link_line(l) if kind == "g1" else edge_line(l))
+  for i, l in enumerate(links):
+    if kind == "g1":
+      out.append(link_line(l))
+    else:
+      # g2: sid1 is the from-side; g2x: sides exchanged; g2y: every other one
+      out.append(edge_line(l, kind == "g2x" or (kind == "g2y" and i % 2 == 0)))
   out += [x for x in extras if x[0] not in "H"]
   return "\n".join(out) + "\n"
 
@@ -291,6 +301,13 @@ def family_gfa2_twins(tier):
   for n in (2, 3):
     for sh in shapes(n, 2, kmin=1):
       out.append(("twin-star", spec("g2", n, "star", patterned(sh, 3))))
+  # the same adjacencies written with the sides of the E lines exchanged
+  for n in (2, 3):
+    for sh in shapes(n, 3, kmin=1):
+      for kind in ("g2x", "g2y"):
+        for pat in ((2,) if quick else (1, 2, 3)):
+          out.append(("twin-swapped", spec(kind, n, "seq",
+                                           patterned(sh, pat))))
   if not quick:
     for n, k in ((2, 3), (3, 2)):
       for ls in full(n, k, kmin=1):
